@@ -707,6 +707,11 @@ func isnil(b []byte) bool { return b == nil }
 // disjoint: the non-nil slices lie in pairwise different allocations (not
 // observable by executable code; replays treat it as true).
 func disjoint(xs ...[]byte) bool { return true }
+
+// sigvalid: sig is a cryptographically valid signature of data under the
+// public key with bytes key (ghost predicate: uninterpreted in proofs, decided
+// only by what the verification primitives reported; not executable).
+func sigvalid(key, data, sig []byte) bool { return false }
 `
 
 func (sf *SpecFile) genLines() []string {
@@ -718,7 +723,7 @@ func (sf *SpecFile) genLines() []string {
 
 func trimSpaceStr(s string) string { return strings.Join(strings.Fields(s), " ") }
 
-var preludeRe = regexp.MustCompile(`(^|[^.\w])(assert|assume|implies|seqeq|cat|sub|val|u16|u32|forall|exists|suffix|within|fresh|disjoint|same|isnil)\(`)
+var preludeRe = regexp.MustCompile(`(^|[^.\w])(assert|assume|implies|seqeq|cat|sub|val|u16|u32|forall|exists|suffix|within|fresh|disjoint|same|isnil|sigvalid)\(`)
 
 // renamePrelude gives the ghost vocabulary collision-free names in the
 // generated Go (contracts are written with the short names).
